@@ -171,10 +171,24 @@ pub fn inflight_io() -> i64 {
     INFLIGHT_IO.load(Ordering::SeqCst)
 }
 
-struct InflightGuard;
+thread_local! {
+    /// Counter that additionally receives the closures submitted from this thread (a test harness that polls
+    /// a storage future on its own thread can thus wait for exactly the closures that future submitted)
+    static INFLIGHT_GROUP: std::cell::RefCell<Option<Arc<AtomicI64>>> = std::cell::RefCell::new(None);
+}
+
+/// Attributes blocking I/O closures submitted from the calling thread to the returned counter
+pub fn inflight_group_for_this_thread() -> Arc<AtomicI64> {
+    INFLIGHT_GROUP.with(|g| g.borrow_mut().get_or_insert_with(|| Arc::new(AtomicI64::new(0))).clone())
+}
+
+struct InflightGuard(Option<Arc<AtomicI64>>);
 impl Drop for InflightGuard {
     fn drop(&mut self) {
         INFLIGHT_IO.fetch_sub(1, Ordering::SeqCst);
+        if let Some(g) = &self.0 {
+            g.fetch_sub(1, Ordering::SeqCst);
+        }
     }
 }
 
@@ -184,7 +198,11 @@ where
     R: Send + 'static,
 {
     INFLIGHT_IO.fetch_add(1, Ordering::SeqCst);
-    let guard = InflightGuard;
+    let group = INFLIGHT_GROUP.with(|g| g.borrow().clone());
+    if let Some(g) = &group {
+        g.fetch_add(1, Ordering::SeqCst);
+    }
+    let guard = InflightGuard(group);
     move || {
         let _guard = guard;
         f()
